@@ -950,7 +950,30 @@ func runMerge(c *Ctx, prop string) {
 				if b == l.Header {
 					continue
 				}
-				if _, isIf := b.Instrs[len(b.Instrs)-1].(*ssa.If); isIf {
+				if iff, isIf := b.Instrs[len(b.Instrs)-1].(*ssa.If); isIf {
+					// a guard "no ':' in the token" can never fire: every match of the tag pattern contains a ':'
+					// (language inclusion, engine R) — dead code, not a filter
+					if cmp, ok := iff.Cond.(*ssa.BinOp); ok {
+						idx, isCall := cmp.X.(*ssa.Call)
+						k, isK := constInt(cmp.Y)
+						if isCall && isK && (k == 0 && cmp.Op == token.LSS || k == -1 && (cmp.Op == token.EQL || cmp.Op == token.LEQ)) {
+							nm := calleeName(&idx.Call)
+							sepIsColon := false
+							if nm == "strings.Index" {
+								if sv, ok := constString(idx.Call.Args[1]); ok && sv == ":" {
+									sepIsColon = true
+								}
+							}
+							if nm == "strings.IndexByte" {
+								if kv, ok := constInt(idx.Call.Args[1]); ok && kv == ':' {
+									sepIsColon = true
+								}
+							}
+							if sepIsColon && everyTagTokenHasColon(p) {
+								continue
+							}
+						}
+					}
 					bad = append(bad, "tokens are filtered inside the tokeniser loop: some keys of the existing tag may be dropped")
 				}
 			}
@@ -1161,4 +1184,14 @@ func analyseSearchHelper(h *ssa.Function, listArg, keyArg int) (sentinel int64, 
 		return 0, "no 'not found' result"
 	}
 	return sentinel, ""
+}
+
+// everyTagTokenHasColon: language inclusion (engine R) — every match of the tag-token pattern contains ':'.
+func everyTagTokenHasColon(p *Prog) bool {
+	if pg, ok := patternGlobals(p, "file")["rTags"]; ok {
+		if inc, _, err := RxIncluded("^(?:"+pg.Pat+")$", "(?s):"); err == nil && inc {
+			return true
+		}
+	}
+	return false
 }
